@@ -383,3 +383,77 @@ func VerifH_C08_candidate_dead_on_arrival() {
 		verif.Assert(w.sock.Upgraded() && w.sock.Transport() == transports.Transport(cand), "a later candidate that follows the protocol completes the switch")
 	})
 }
+
+// VerifH_C08_frame_during_setup: the candidate's reader runs from its constructor, so a
+// frame of the candidate (the upgrade packet sent without waiting for the probe pong, an
+// unexpected packet, or the connection closing) may be dispatched the moment the session
+// has attached its 'packet' listener, while MaybeUpgrade is still setting the attempt up.
+// Whatever that frame does, nothing of the attempt is left behind: one upgrade timeout later
+// the adopted transport is still open, and a later attempt is still being entertained.
+func VerifH_C08_frame_during_setup() {
+	verif.RunTimed(func() {
+		atAttach := false
+		types.VerifYield = func(evt string) {
+			if evt == "packet" {
+				atAttach = true
+				verif.Yield("packet listener attached")
+				atAttach = false
+			}
+		}
+		defer func() { types.VerifYield = nil }()
+		w := newUpWorld()
+		main0 := w.ft
+		cand := w.candidate()
+		kind := verif.Choose(3)
+		dispatched := false
+		frame := func() {
+			dispatched = true
+			switch kind {
+			case 0:
+				cand.OnPacket(&packet.Packet{Type: packet.UPGRADE, Data: types.NewStringBufferString("")})
+			case 1:
+				cand.OnPacket(&packet.Packet{Type: packet.MESSAGE, Data: types.NewStringBufferString("early")})
+			case 2:
+				cand.OnClose()
+			}
+		}
+		verif.Event("a frame of the candidate is dispatched", func() {
+			if atAttach { // (a frame dispatched before anybody listens is the known finding K-C08-probe-before-listeners)
+				frame()
+			}
+		})
+		t0 := verif.Now()
+		ut := int64(w.ps.Opts().UpgradeTimeout())
+		verif.InjectBudget(1)
+		w.sock.MaybeUpgrade(cand)
+		verif.InjectBudget(0)
+		if !dispatched {
+			frame()
+		}
+		if kind == 0 {
+			verif.Assert(w.sock.Upgraded() && w.sock.Transport() == transports.Transport(cand), "an upgrade packet completes the switch")
+			verif.SleepUntil(t0 + ut + 1)
+			verif.Settle()
+			verif.Assert(w.sock.ReadyState() == "open" && w.sock.Transport() == transports.Transport(cand) && cand.ReadyState() == "open", "no timer of the finished attempt is left behind: the adopted transport stays open")
+			return
+		}
+		if w.sock.Upgrading() {
+			// the candidate's close was dispatched before its listener existed: the attempt ends
+			// with the upgrade timeout
+			verif.SleepUntil(t0 + ut)
+			verif.Settle()
+			t0 = verif.Now()
+		}
+		verif.Assert(!w.sock.Upgrading() && !w.sock.Upgraded() && w.sock.Transport() == transports.Transport(main0), "a failed candidate leaves the session on its transport, not upgrading")
+		verif.SleepUntil(t0 + 10e6)
+		cand2 := w.candidate()
+		w.sock.MaybeUpgrade(cand2)
+		cand2.OnPacket(probePing())
+		cand2.complete()
+		verif.SleepUntil(t0 + ut + 1) // the first attempt's timeout instant has passed, the second one's has not
+		verif.Settle()
+		verif.Assert(w.sock.Upgrading() && cand2.ReadyState() == "open", "no timer of the failed attempt is left behind: the later attempt is still being entertained")
+		cand2.OnPacket(&packet.Packet{Type: packet.UPGRADE, Data: types.NewStringBufferString("")})
+		verif.Assert(w.sock.Upgraded() && w.sock.Transport() == transports.Transport(cand2), "and completes the switch")
+	})
+}
